@@ -173,6 +173,8 @@ def _kindword(low):
         ('postcondition not satisfied', 'ensures'),
         ('precondition not satisfied', 'call-precondition'),
         ('fails to satisfy `callee.requires(args)`', 'call-precondition'),
+        ('precondition not met', 'call-precondition'),
+        ('index in bounds', 'call-precondition'),
         ('invariant not satisfied before loop', 'invariant-init'),
         ('invariant not satisfied at end of loop body', 'invariant-preserved'),
         ('invariant not satisfied', 'invariant'),
